@@ -597,6 +597,9 @@ Proof.
   - cbn [app strip_go]. destruct (N.eqb_spec c src_sgr_esc) as [->|_]; [exfalso; apply Hn; left; reflexivity|].
     rewrite IH; [reflexivity|]. intros Hi. apply Hn. right. exact Hi.
 Qed.
+(* a text that is not well-formed UTF-16 matches nothing: it reaches the file unchanged (colour codes and all) *)
+Theorem strip_sgr_ill_formed s : utf16_ok s = false -> strip_sgr s = s.
+Proof. intros H. unfold strip_sgr. rewrite H. reflexivity. Qed.
 (* the whole chain on one message: total under the hypotheses of the PrettyFormatter theorem, and what reaches the
    file is the PrettyFormatter text with colour codes removed - never longer *)
 Theorem configure_total cw t (c : option qstr) msg : 0 <= cw <= INT_MAX -> len msg + len (cstr c) <= INT_MAX - 200 ->
